@@ -29,12 +29,13 @@ FUNCTIONS = ["codebasin/finder.py:find", "codebasin/finder.py:ParserState.associ
              "codebasin/report.py:find_duplicates", "codebasin/report.py:extract_platforms/divergence/coverage/average_coverage",
              "codebasin/report.py:FileTree.Node._platforms_str"]
 STUBS = ["finder.set / report.set -> order-permuting set shim; FakeCodeBase iterates in the chosen order; tabulate captured",
-         "hashlib/filecmp/open/Path in report -> in-memory (as in C16)"]
+         "hashlib/filecmp/open/Path in report -> in-memory (as in C16)",
+         "matplotlib / scipy.cluster.hierarchy / scipy.spatial.distance -> recorders (what clustering() hands to them is compared)"]
 ASSUMPTIONS = ["real PYTHONHASHSEED / scandir variation across processes is modelled, not executed",
                "IEEE rounding differences between summation orders are outside (exact reals)",
                "once the permutation indices are decided the real code runs untraced on that leaf"]
 BOUNDS = {"quick": "find/: 4 scenarios x 6 platform orders x 6 enumeration orders x 6 set-iteration orders; summary/: all insertion orders of "
-                   "4-key tables; dup/: 4 files, 24 enumeration orders x 6 set orders; metrics/: every insertion order of every 3-key "
+                   "4-key tables; clustering/: 24 insertion orders x 24 set-iteration orders of three 4-key tables (matplotlib/scipy replaced by recorders); dup/: 4 files, 24 enumeration orders x 6 set orders; metrics/: every insertion order of every 3-key "
                    "shape over 2 platforms and 4-key shapes over 3 platforms, all counts",
           "thorough": "same plus 5-key tables"}
 EXPLANATION = ("Iteration orders are explicit symbolic permutation indices; CrossHair exhausts them and the real functions must return "
@@ -201,6 +202,133 @@ def h_summary(k: int) -> bool:
             why = "exception " + repr(e)
     if P.get("_replay"):
         LAST.update(table=TABLES[P["table"]], insertion_order=kk, why=why)
+    return why is None
+
+
+def h_cluster(k: int, so: int) -> bool:
+    """
+    pre: 0 <= k < 24 and 0 <= so < 24
+    post: _
+    """
+    import sys
+    import types
+
+    import codebasin.report as report
+
+    kk = ss = None
+    for j in range(24):
+        if k == j:
+            kk = j
+        if so == j:
+            ss = j
+    STATS["compared"] += 1
+    if P.get("_twin"):
+        return False
+    why = None
+    with scen.untraced():
+        keys = TABLES[P["table"]]
+        counts = {keys[0]: 3, keys[1]: 5, keys[2]: 7, keys[3]: 2}
+
+        def run(order, set_order):
+            sm = defaultdict(int)
+            for key in order:
+                sm[frozenset(key)] = counts[key]
+            cap = {}
+
+            def fake_tab(data, headers=(), **kw):
+                cap["rows"] = [tuple(r) for r in data]
+                cap["headers"] = list(headers)
+                return ""
+
+            # matplotlib / scipy are replaced by recorders: what is handed to them is the observation
+            mpl = types.ModuleType("matplotlib")
+            mpl.use = lambda *a, **k: None
+            mpl.rcParams = {}
+            plt = types.ModuleType("matplotlib.pyplot")
+
+            class _Any:
+                def __getattr__(self, n):
+                    return lambda *a, **k: _Any()
+
+                def __getitem__(self, i):
+                    return 0.0
+
+                def __enter__(self):
+                    return self
+
+                def __exit__(self, *a):
+                    return False
+
+            class _Util:
+                ensure_ext = staticmethod(lambda *a, **k: None)
+                safe_open_write_binary = staticmethod(lambda name: _Any())  # nothing is written
+
+            plt.subplots = lambda *a, **k: (_Any(), _Any())
+            plt.savefig = lambda *a, **k: None
+            plt.xlabel = plt.ylabel = plt.legend = plt.title = plt.tight_layout = plt.close = lambda *a, **k: None
+            mpl.pyplot = plt
+            sc = types.ModuleType("scipy")
+            scc = types.ModuleType("scipy.cluster")
+            hier = types.ModuleType("scipy.cluster.hierarchy")
+            hier.linkage = lambda m, method=None: cap.setdefault("linkage", m)
+            hier.dendrogram = lambda c, labels=None, **k: cap.setdefault("labels", list(labels))
+            scc.hierarchy = hier
+            scs = types.ModuleType("scipy.spatial")
+            scd = types.ModuleType("scipy.spatial.distance")
+            scd.squareform = lambda m: [list(r) for r in m]
+            scs.distance = scd
+            mods = {"matplotlib": mpl, "matplotlib.pyplot": plt, "scipy": sc, "scipy.cluster": scc, "scipy.cluster.hierarchy": hier,
+                    "scipy.spatial": scs, "scipy.spatial.distance": scd}
+            saved = {m: sys.modules.get(m) for m in mods}
+            sys.modules.update(mods)
+            old_tab, old_set, old_util = report.tabulate, getattr(report, "set", None), report.util
+            report.tabulate = fake_tab
+            report.util = _Util
+            report.set = PermSet
+            ORDER[0] = set_order
+
+            class S:
+                def isatty(self):
+                    return False
+
+                def write(self, s):
+                    pass
+
+            try:
+                report.clustering("out.png", sm, stream=S())
+            finally:
+                report.tabulate = old_tab
+                report.util = old_util
+                if old_set is None:
+                    del report.set
+                else:
+                    report.set = old_set
+                for m, v in saved.items():
+                    if v is None:
+                        sys.modules.pop(m, None)
+                    else:
+                        sys.modules[m] = v
+            return cap, sm
+
+        try:
+            base, sm = run(keys, 0)
+            got, _sm = run(_perm(keys, kk), ss)
+            names = sorted({p for key in keys for p in key})
+            if got != base:
+                why = "clustering output depends on the iteration / insertion order: %s vs %s" % (got, base)
+            elif got.get("headers") != names or [r[0] for r in got["rows"]] != names or got.get("labels") != names:
+                why = "row / column / leaf labels are not the sorted platform names: %s" % (got,)
+            else:
+                # every cell, and every entry handed to the linkage, is the distance of the pair its labels name
+                for i, a in enumerate(names):
+                    for j, b in enumerate(names):
+                        d = report.distance(sm, a, b)
+                        if got["rows"][i][1 + j] != "%.2f" % d or got["linkage"][i][j] != d:
+                            why = "cell (%s,%s) is not distance(%s,%s)" % (a, b, a, b)
+        except Exception as e:
+            why = "exception " + repr(e)
+    if P.get("_replay"):
+        LAST.update(table=TABLES[P["table"]], insertion_order=kk, set_order=ss, why=why)
     return why is None
 
 
@@ -371,6 +499,9 @@ def obligations(tier, known):
         for ties in (False, True):
             obs.append(Ob(id="summary/table%d%s" % (i, "-ties" if ties else ""), kind="ch", module=__name__, func="h_summary",
                           params=dict(table=i, ties=ties), timeout=200, group="summary", expect=expect))
+    for i in (1, 2, 3):
+        obs.append(Ob(id="clustering/table%d" % i, kind="ch", module=__name__, func="h_cluster", params=dict(table=i), timeout=400,
+                      group="clustering"))
     obs.append(Ob(id="dup/orders", kind="ch", module=__name__, func="h_dup", params={}, timeout=300, group="dup"))
     from vp.harness import c07
 
@@ -383,8 +514,8 @@ def obligations(tier, known):
 
 
 CLAIM = ("Under an explicit model of unordered iteration (set iteration/pop order, code-base enumeration order, platform order, dictionary "
-         "insertion order - all symbolic permutation indices) the attribution, platform-set table, summary rows in printed order and duplicate "
-         "groups are identical for every order within the bound, and the metrics are order-independent for all counts (z3).")
+         "insertion order - all symbolic permutation indices) the attribution, platform-set table, summary rows in printed order, the labelled distance matrix "
+         "(table, linkage input, dendrogram labels) and duplicate groups are identical for every order within the bound, and the metrics are order-independent for all counts (z3).")
 LEVEL_NOTE = ("PARTIAL: the property quantifies over what separate interpreter processes do (hash randomisation, readdir order); that is "
               "modelled by permuting iteration order inside one process, not executed. Trusted: the order model (which names are shimmed), "
               "CrossHair/z3. Outside: IEEE summation-order effects, the dendrogram, cross-process behaviour as such.")
